@@ -51,7 +51,7 @@ func cfgFor(prop string, r *Rng) GenCfg {
 		c.BigRate = 0.25
 	case "C48":
 		f["event"], f["resource"], f["attachment"], f["storage"] = 4, 5, 3, 1
-		f["contract"] = 4 // contracts whose event declarations change with updates
+		f["contract"] = 6 // contracts whose event declarations change with updates
 		c.ScnRate = 0.15
 	case "C49":
 		f["attachment"], f["resource"] = 10, 3
